@@ -1,3 +1,4 @@
+from planlib import desc_fuzz
 def _jobs(tier):
     mult = 1 if tier == "quick" else 80
     jobs = []
@@ -34,6 +35,9 @@ PLAN = dict(
          "(kernel: a carry argument is present).",
     assumptions=["|a_i| <= 2^62 (documented operand range); |carry_in| <= 2^(63-k)", "oracle: __int128 carry chain + GMP congruence"],
     quick=_jobs("quick"), thorough=_jobs("thorough"),
+    fuzz=[desc_fuzz("C05", fix=dict(kN=(1, 8)), skip_subs=['exhaustive']),
+          dict(target="fuzz/normalize.cpp", deps=["props/c05.cpp"], corpus="fuzz/corpus/normalize", extra_link=["-lgmp"], max_len=1024, flags=["-use_value_profile=1"],
+               quick=dict(mode="replay"), thorough=dict(mode="campaign", workers=16, runs=400000))],
     required_classes=dict(all=["a_size=0", "res_size=0", "res<a", "res>a", "inplace", "begin==xend", "step>1", "module:NTT120",
                                "variant:vec_znx_normalize_base2k", "variant:vec_znx_big_normalize_base2k",
                                "variant:vec_znx_big_range_normalize_base2k", "variant:znx_normalize"]
